@@ -289,3 +289,21 @@ theorem finalState_base_le (st : St) (hinv : Inv st) (cs : List Call) :
     exact UInt64.le_trans (step_base_le st hinv c) (ih _ (step_inv st hinv c))
 
 end Woodpile.NfsVoucher
+
+namespace Woodpile.NfsVoucher
+open Woodpile.Raffle
+
+/-- Every entry of a history's transcript is one step taken from the state
+reached by the calls before it. -/
+theorem run_mem (st : St) (cs : List Call) (r : St × Ret) (h : r ∈ run st cs) :
+    ∃ pre c suf, cs = pre ++ c :: suf ∧ r = step (finalState st pre) c := by
+  induction cs generalizing st with
+  | nil => simp [run] at h
+  | cons c cs ih =>
+    simp only [run, List.mem_cons] at h
+    rcases h with h | h
+    · exact ⟨[], c, cs, rfl, h⟩
+    · obtain ⟨pre, c', suf, h1, h2⟩ := ih _ h
+      exact ⟨c :: pre, c', suf, by simp [h1], by simpa [finalState] using h2⟩
+
+end Woodpile.NfsVoucher
